@@ -13,6 +13,7 @@ import (
 	"math/rand"
 	"os"
 	"strconv"
+	"strings"
 )
 
 type suite interface {
@@ -78,6 +79,19 @@ func main() {
 		w := bufio.NewWriter(os.Stdout)
 		s(ops, func(o string) { fmt.Fprintln(w, o); w.Flush() })
 		w.Flush()
+	case "sched":
+		f := strings.Split(os.Args[2], "|")
+		sc, _ := strconv.Atoi(f[0])
+		idx, _ := strconv.Atoi(f[2])
+		writeJSON(runScenario(scenarios[sc], f[1], idx))
+	case "round":
+		f, ok := rounds[os.Args[2]]
+		if !ok {
+			os.Exit(2)
+		}
+		seed, _ := strconv.ParseInt(os.Args[3], 10, 64)
+		i, _ := strconv.Atoi(os.Args[4])
+		writeJSON(f(seed, i))
 	case "monitor":
 		m, ok := monitors[os.Args[2]]
 		if !ok {
